@@ -12,6 +12,9 @@ CHECKS = {
  'C09': dict(engine='gev-c08', technique='same exploration as C08 with the class-rewrite oracle: set of rewritten positions == set of class-name pieces of the model',
    text='On the C08 space (plus 6 prefix spellings incl. empty, non-ASCII, blank-containing) the model knows which identifier pieces are class names in selector context (any function depth, any rule-bearing wrapper, at-rule prelude blocks); each must come out as P--name exactly once, preceded by the sign comment iff configured, and no other identifier may acquire the prefix or a sign comment.',
    note='Trusted: cssparser tokenizer. An identifier after a dot separated by white space is not a class selector (model rule).', ref='4/C09'),
+ 'C10': dict(engine='gev-c10', technique='exhaustive sweep of numeric spellings (integer ranges, decimal grid, boundary and exponent forms) x contexts x units x ratios through the real transformer, token-level numeric oracle',
+   text='All integers |n| < 2^17 in nine contexts as number / px / % / rpx (quick) and the whole i32 range as number and px (thorough); all k/1000 for k < 10^5; 47 hand-picked spellings (exponents, signed zero, leading dot / plus, f32 limits) and 54 boundary integers in every context x 10 units x 9 ratios. Each output numeric token is compared with its input token: rpx -> vw with value*100/ratio within 2^-23 relative (expected computed in f64), other units untouched, integers exactly equal, non-integers within 2^-23.',
+   note='Trusted: cssparser tokenizer for the value of a spelling. Deviations that are exactly the six-significant-digit rendering of the correctly computed f32 are one known finding (pinned by the unit tests); anything else is a violation.', ref='4/C10'),
 }
 
 NOT_YET = {}
